@@ -110,6 +110,10 @@ CLAIMS = {
         "text": "Static lockset atomic-set rule over {last_data, services}: add_boxed keeps a last_data guard from the read through priming the new service until it is appended; publish holds last_data exclusively from before the fan-out until the store; consistent lock order; filter applied once and the filtered value stored. What services do with the data is not decided.",
         "technique": "static lockset: guard held-at-call queries on MIR, lock-order check, derives-from",
     },
+    "C41": {
+        "text": "Request-flag-as-completion rule on Router::shutdown: every Ok return that does not itself complete the join of the run task must be selected by state other callers can only observe after the join (not by the cancel flag raised before the join, nor by a task slot emptied and released before it); plus the run-loop epilogue order (protocols.shutdown completed before endpoint.close, both on every exit, drop-guard first). Termination of handler shutdowns is not decided.",
+        "technique": "join-free-path search on coroutine MIR, dominance of state writes by the join's Ready edge, lockset (guard held across the join), must-follow on the epilogue",
+    },
 }
 
 _PENDING = "rules for this property are not implemented yet in this revision (see DESIGN.md §4 for the planned structural clauses)"
